@@ -324,6 +324,27 @@ def install(it):
     def ghost_set(it, args, kw):
         it.p.ghost[args[0]] = args[1]
 
+    @reg('fresh_instance')
+    def fresh_instance(it, args, kw):
+        """an arbitrary instance of a record class (what a decoder returns on arbitrary input)"""
+        from .pack import fresh_value
+        return fresh_value(it, 'decoded', args[0])
+
+    @reg('consume_some')
+    def consume_some(it, args, kw):
+        """a decoder that returns has consumed at least one byte of the stream"""
+        st = args[0]
+        old = bytes_term(st.rem)
+        h = it.p.fresh_bytes('consumed')
+        r = it.p.fresh_bytes('rem')
+        it.p.assume(old == z3.Concat(h, r), note=False)
+        it.p.assume(z3.Length(h) >= 1)
+        it.p.facts.add(z3.And(z3.Length(r) >= 0, z3.Length(old) == z3.Length(h) + z3.Length(r)))
+        import ast
+        st.before = it.binop(ast.Add(), st.before, h)
+        st.rem = r
+        st.last_read = None
+
     @reg('empty_seq')
     def empty_seq(it, args, kw):
         elem = args[0]
